@@ -18,6 +18,8 @@ structure CliCase where
   args : Option Json          -- `none`: no ARGUMENTS given
   more : Bool
   frames : List Msg           -- what the service sends back for the first request, then EOF
+  listening : Bool := false   -- a scripted service listens on `listen`
+  listen : String := ""
 
 structure CliObs where
   conns : Nat
@@ -55,9 +57,24 @@ def stdShort : List (String × String × String) :=
    ("org.varlink.service.MethodNotImplemented", "MethodNotImplemented", "method"),
    ("org.varlink.service.InvalidParameter", "InvalidParameter", "parameter")]
 
+/-- `ADDRESS/INTERFACE.METHOD` with the address of the listening service -/
+def url_ok (c : CliCase) : Bool :=
+  let parts := c.url.splitOn "/"
+  parts.length ≥ 2 && ((methodPart c.url).splitOn ".").length ≥ 2 &&
+    (let a := "/".intercalate parts.dropLast
+     (if a.startsWith "unix:" then ((a.splitOn ";").head?).getD a else a) == c.listen)
+
+/-- the address part of `ADDRESS/METHOD` (independent of `Cli.split`): all but the last '/'-separated piece,
+    without the `;parameters` suffix of a unix address -/
+def addressPart (url : String) : String :=
+  let a := "/".intercalate ((url.splitOn "/").dropLast)
+  if a.startsWith "unix:" then ((a.splitOn ";").head?).getD a else a
+
 def P_C20 (c : CliCase) (o : CliObs) : Verdict :=
   if !o.clean then some "stdout-is-not-a-sequence-of-json-documents" else
   if o.exit.isNone then some "tool-did-not-terminate" else
+  -- a well-formed ADDRESS/INTERFACE.METHOD whose address is the one the service listens on must reach it
+  if c.listening && (url_ok c) && o.conns == 0 then some "address-method-argument-not-split-at-the-last-slash (service not contacted)" else
   if o.conns == 0 || o.log.isEmpty then
     -- nothing was called: nothing may be printed, and that is a failure
     (if !o.stdout.isEmpty then some "output-without-a-call"
